@@ -237,3 +237,21 @@ Theorem C09_run_delete_mode_removes_reported : forall s sort_opt count p es,
    run_entries s sort_opt count p es = filter (kept (run_reg s count p) (s_skipped s)) es).
 Proof. exact run_delete_mode_removes_reported. Qed.
 Print Assumptions C09_run_delete_mode_removes_reported.
+
+(* non-vacuity: every theorem of this file that has hypotheses has a concrete, non-trivial instance meeting ALL of them
+   (lemmas <Theorem>_witness / <Theorem>_applied in Proofs/WitnessesP.v); a representative one is restated here *)
+From Snaps Require Import Proofs.WitnessesP.
+Example C09_witnesses :
+  (forall s, In s w09_states ->
+     NoDup (map fst (s_fs s)) /\ In w09_snap (fr_used (run_files s w09_count)) /\
+     alookup w09_snap (s_fs s) = Some (render (map to_entry w09_es)) /\
+     Forall centry_ok w09_es /\ NoDup (map fst w09_es) /\
+     In w09_stale w09_es /\ mem_bytes (fst w09_stale) (run_reg s w09_count w09_snap) = false /\
+     test_skipped (s_skipped s) (fst w09_stale) = false /\
+     In w09_old (fr_obsolete (run_files s w09_count))) /\
+  clean_deletes (s_env w09_sD) = true /\ clean_deletes (s_env w09_sR) = false /\
+  clean_deletes (s_env w09_sCI) = false /\ ci (s_env w09_sCI) = true /\
+  (forall sort_opt, In w09_old (cr_obsolete_files (snd (clean_run w09_sD sort_opt w09_count)))) /\
+  (forall s, In s w09_states -> forall sort_opt,
+     In (fst w09_stale) (cr_obsolete_tests (snd (clean_run s sort_opt w09_count)))).
+Proof. exact C09_witnesses_all. Qed.
